@@ -3,6 +3,11 @@
 // Contracts for cmd/bklr (comment-only; read by /verif/bin/bklverif, invisible to the compiler without -tags verif).
 package main
 
+// main: every failing step (FileMatch, New, MergeFileLayers, required, GetFormat, MarshalStream, the write) ends the run.
+//@ func main() ()
+//@   property C17
+//@   propagates all   [C08] [C17]
+//
 //@ func required(obj) (res, err)
 //@   ensures (not (isErr err))
 //@   ensures (= res (reqF obj))                                 [C17]
